@@ -6,6 +6,12 @@ Components (each: real code vs compiled Lean model on the same inputs + an imple
           re-serialisation of whatever was parsed
   rtp     RtpPacket.parse/serialize with HeaderExtensionsMap (structured + malformed)
   rtx     wrap_rtx / unwrap_rtx
+  ops     (harness/c07ops.py) histories over a pool of LIVE objects: HeaderExtensionsMap configured again between uses,
+          RtpPacket / RTCP objects re-used, modified by a hostile owner, re-serialised; vs Model/Rtp/Ops.lean
+
+Hidden state (round 3): every parse in `rtcp` / `rtp` / `fields` is evaluated twice with a hostile owner modifying the first
+result in between; more than half of the serialise cases run on RE-USED objects (`prev`: built with other values, serialised,
+every field overwritten) and are serialised twice in a row. Helpers: harness/c07state.py.
 """
 from __future__ import annotations
 
@@ -14,9 +20,12 @@ import struct
 import types
 
 from harness.check import Component
+from harness import c07state as st
+from harness.c07state import build_ri, build_rtcp, build_rtp  # noqa: F401  (re-exported for the components below)
 
-LEAN_TARGETS = ["Aiortc.Props.C07"]
-DRIVERS = ["Rtp"]
+LEAN_TARGETS = ["Aiortc.Props.C07", "Aiortc.Props.C07Ops"]
+AUDIT_PROPS = ["C07", "C07Ops"]
+DRIVERS = ["Rtp", "RtpOps"]
 MANIFEST = {
     "technique": "Lean 4 theorems (induction over the serialiser/parser loops, omega, core List lemmas) about an executable model of "
                  "rtp.py + function-level differential run of the compiled model against the real code (structured and malformed streams)",
@@ -24,7 +33,11 @@ MANIFEST = {
             "one-/two-byte extension form) and ALL compound RTCP packets (SR/RR/SDES/BYE/RTPFB/PSFB); NACK set equality for every list of "
             "16-bit numbers; 24-bit saturation of cumulative loss; REMB never rounds up and loses < 2^-17 relatively; RTX wrap/unwrap "
             "inverse. The model is tied to the code by running both on generated packets and on mutated byte strings and diffing canonical "
-            "results (including which exception escapes); the oracle evaluates the round-trip property on the implementation alone.",
+            "results (including which exception escapes); the oracle evaluates the round-trip property on the implementation alone. "
+            "Objects are treated as STATE: histories (configure / use / configure again on one HeaderExtensionsMap, re-used and hostile-"
+            "modified packet objects, interleaved maps) run on live objects and through the pure history semantics Model/Rtp/Ops.lean; "
+            "Props/C07Ops.lean proves that after ANY history serialising observes the current values and id table only, parsing the "
+            "bytes and the table only, and the round trip holds for re-used objects and re-configured maps.",
     "note": "Needs fixes/C07-hdrext-length.patch, C07-toffset-width.patch, C07-nack-wrap.patch, C07-remb-count.patch applied to the repo "
             "(the model is of the fixed behaviour; on the unpatched tree the check reports a VIOLATION with a concrete input).",
     "design_ref": "DESIGN.md §2 C07",
@@ -42,7 +55,9 @@ ASSUMPTIONS = [
 TRUSTED_EXTRA = [
     "str <-> UTF-8/ASCII bytes: `mid`, `rid`, `rrid` are represented in the model by their encodings; str.encode/bytes.decode are modelled as "
     "identity + validity check (validUtf8/validAscii are differential-tested against bytes.decode)",
-    "HeaderExtensionsMap.configure (URI -> id table) is exercised by the harness but not modelled beyond the resulting id record",
+    "HeaderExtensionsMap.configure is modelled on the id record (Model/Rtp/Ops.lean `configure`: known URI overwrites that id, last entry wins, "
+    "unknown URIs ignored, nothing removed); the URI strings themselves are matched by the harness (7 known URIs + one unknown)",
+    "ops: the field values a hostile owner leaves behind are computed by the harness (c07state.hostile_spec_*) and handed to the model as a `put`",
     "parsers that walk with an absolute `pos` are modelled on the remaining suffix data[pos:]",
     "serialisers are modelled on their well-formedness domain only (struct.error / AssertionError outside of it is not modelled, "
     "except pack_packets_lost and pack_remb_fci)",
@@ -51,7 +66,11 @@ TRUSTED_EXTRA = [
 RULE = ("structured stream: packets/compounds built with the repo's classes from boundary-biased field values (0, 1, max, wrap points), all subsets of "
         "header extensions x id maps over 1-14 and 15-255 x value lengths 0/1/16/17/255 that flip the one-/two-byte form, CSRC 0..15, padding 0/1/255, "
         "every RTCP type with 0..31 items, compound mixes; malformed stream: truncation at every offset, length/count fields +-1/0/max, bit flips, "
-        "appended garbage, padding bit, wrong-length and undecodable extension values; distinct = distinct canonical case (sha1 of JSON)")
+        "appended garbage, padding bit, wrong-length and undecodable extension values; state: every parse twice with a hostile owner in between, "
+        ">50% of built cases on re-used objects (prev values of the same classes, fields overwritten in place / by assignment), serialised twice; "
+        "ops: histories of 8-40 steps (configure / use / configure again adding, re-numbering, swapping ids, unknown URIs, repeated entries, "
+        "colliding ids; value sweeps on one live object; random mixes over 2 maps + the default-argument map, 4 objects, 4 byte registers); "
+        "distinct = distinct canonical case (sha1 of JSON)")
 
 U16 = [0, 1, 2, 15, 16, 17, 255, 256, 32767, 32768, 65519, 65520, 65534, 65535]
 U32 = [0, 1, 255, 256, 65535, 65536, 2**24 - 1, 2**24, 2**31 - 1, 2**31, 2**32 - 2, 2**32 - 1]
@@ -166,44 +185,6 @@ def make_map(ids):
     exts = [RTCRtpHeaderExtensionParameters(id=i, uri=URIS[f]) for f, i in zip(EXT_FIELDS, ids) if i is not None]
     m.configure(RTCRtpParameters(headerExtensions=exts))
     return m
-
-
-def build_ri(v):
-    return R().RtcpReceiverInfo(ssrc=v[0], fraction_lost=v[1], packets_lost=v[2], highest_sequence=v[3],
-                                jitter=v[4], lsr=v[5], dlsr=v[6])
-
-
-def build_rtcp(s):
-    rtp = R()
-    t = s["t"]
-    if t == "bye":
-        return rtp.RtcpByePacket(sources=list(s["sources"]))
-    if t == "psfb":
-        return rtp.RtcpPsfbPacket(fmt=s["fmt"], ssrc=s["ssrc"], media_ssrc=s["media"], fci=unhx(s["fci"]))
-    if t == "rr":
-        return rtp.RtcpRrPacket(ssrc=s["ssrc"], reports=[build_ri(v) for v in s["reports"]])
-    if t == "rtpfb":
-        return rtp.RtcpRtpfbPacket(fmt=s["fmt"], ssrc=s["ssrc"], media_ssrc=s["media"], lost=list(s["lost"]))
-    if t == "sdes":
-        return rtp.RtcpSdesPacket(chunks=[rtp.RtcpSourceInfo(ssrc=c["ssrc"], items=[(i[0], unhx(i[1])) for i in c["items"]])
-                                          for c in s["chunks"]])
-    if t == "sr":
-        i = s["info"]
-        return rtp.RtcpSrPacket(ssrc=s["ssrc"], sender_info=rtp.RtcpSenderInfo(ntp_timestamp=i[0], rtp_timestamp=i[1],
-                                                                                 packet_count=i[2], octet_count=i[3]),
-                                reports=[build_ri(v) for v in s["reports"]])
-    raise KeyError(t)
-
-
-def build_rtp(s):
-    rtp = R()
-    p = rtp.RtpPacket(payload_type=s["pt"], marker=s["m"], sequence_number=s["seq"], timestamp=s["ts"], ssrc=s["ssrc"],
-                      payload=unhx(s["payload"]))
-    p.csrc = list(s["csrc"])
-    p.padding_size = s["pad"]
-    for k, v in s["ext"].items():
-        setattr(p.extensions, k, tuple(v) if k == "audio_level" else v)
-    return p
 
 
 @contextlib.contextmanager
@@ -365,11 +346,23 @@ class Fields(Component):
             return f"rtp hdrunpack {prof} {hx(val)}"
         return None
 
-    def _run(self, f, show):
+    def _run(self, f, show, k=1):
+        """Evaluate `f` twice; the owner of the first result modifies it in place in between (lists that a
+        parser returned). A second evaluation that differs is reported as `=> AGAIN …`."""
         try:
-            return "ok " + show(f())
+            r = f()
+            s1 = show(r)
         except Exception as e:  # noqa
             return tag_exc(e)
+        try:
+            st.hostile_value(r, k)
+        except Exception:  # noqa  (an immutable result cannot be modified: nothing to be hostile about)
+            pass
+        try:
+            s2 = show(f())
+        except Exception as e:  # noqa
+            s2 = tag_exc(e)
+        return "ok " + s1 if s2 == s1 else "ok " + s1 + " => AGAIN " + s2
 
     def impl(self, case):
         rtp = R()
@@ -382,14 +375,14 @@ class Fields(Component):
         if op == "packremb":
             return self._run(lambda: rtp.pack_remb_fci(case["bitrate"], case["ssrcs"]), hx)
         if op == "unpackremb":
-            return self._run(lambda: rtp.unpack_remb_fci(unhx(case["hex"])), lambda r: f"{r[0]} {nats(r[1])}")
+            return self._run(lambda: rtp.unpack_remb_fci(unhx(case["hex"])), lambda r: f"{r[0]} {nats(r[1])}", len(case["hex"]))
         if op == "nackser":
             return self._run(lambda: bytes(rtp.RtcpRtpfbPacket(fmt=1, ssrc=0, media_ssrc=0, lost=case["lost"]))[12:], hx)
         if op == "nackparse":
-            return self._run(lambda: rtp.RtcpRtpfbPacket.parse(bytes(8) + unhx(case["hex"]), 1).lost, nats)
+            return self._run(lambda: rtp.RtcpRtpfbPacket.parse(bytes(8) + unhx(case["hex"]), 1).lost, nats, len(case["hex"]))
         if op == "hdrunpack":
             return self._run(lambda: rtp.unpack_header_extensions(case["profile"], unhx(case["hex"])),
-                             lambda l: ",".join(f"{i}={hx(v)}" for i, v in l) if l else "-")
+                             lambda l: ",".join(f"{i}={hx(v)}" for i, v in l) if l else "-", len(case["hex"]))
         if op == "hdrpack":
             def f():
                 prof, val = rtp.pack_header_extensions([(i, unhx(v)) for i, v in case["exts"]])
@@ -400,6 +393,10 @@ class Fields(Component):
     def oracle(self, case, impl_out):
         rtp = R()
         op = case["op"]
+        if " => AGAIN " in impl_out:
+            a, b = impl_out.split(" => AGAIN ", 1)
+            return (f"{op}: the same input evaluated again, after the owner of the first result modified it, gives "
+                    f"[{b[:200]}] instead of [{a[3:203]}]")
         if op == "lost":
             n = case["n"]
             c = rtp.clamp_packets_lost(n)
@@ -514,8 +511,8 @@ def gen_count(rng):
     return rng.choice([0, 1, 2, 3, 30, 31, rng.randrange(32)]) if rng.random() < 0.3 else rng.choice([0, 1, 2])
 
 
-def gen_rtcp(rng):
-    t = rng.choice(["bye", "psfb", "rr", "rtpfb", "sdes", "sr"])
+def gen_rtcp(rng, t=None):
+    t = t or rng.choice(["bye", "psfb", "rr", "rtpfb", "sdes", "sr"])
     if t == "bye":
         return {"t": t, "sources": [pick(rng, U32, 2**32) for _ in range(gen_count(rng))]}
     if t == "psfb":
@@ -608,7 +605,11 @@ class Rtcp(Component):
         for _ in range(n):
             k = rng.choice([1, 1, 1, 2, 3, 5])
             specs = [gen_rtcp(rng) for _ in range(k)]
-            out.append({"packets": specs})
+            if rng.random() < 0.55:
+                # RE-USED objects: built with other values of the same classes, serialised, every field overwritten
+                out.append({"packets": specs, "prev": [gen_rtcp(rng, s["t"]) for s in specs], "ip": rng.random() < 0.5})
+            else:
+                out.append({"packets": specs})
             if rng.random() < 0.6:
                 try:
                     data = b"".join(bytes(build_rtcp(s)) for s in specs)
@@ -646,10 +647,24 @@ class Rtcp(Component):
                                   + bytes(rng.choice([0, 1, 2, 0xFF, rng.randrange(256)]) for _ in range(4 * ln)))})
         return out
 
+    def _objs(self, case):
+        """The live objects of a built case: fresh ones, or (`prev`) objects that were built with other values
+        and serialised before every field was overwritten with the values of the case."""
+        specs = case["packets"]
+        if "prev" not in case:
+            return [build_rtcp(s) for s in specs]
+        objs = [build_rtcp(s) for s in case["prev"]]
+        for o in objs:
+            try:
+                bytes(o)
+            except Exception:  # noqa
+                pass
+        return st.assign_compound(objs, specs, bool(case.get("ip")))
+
     def _data(self, case):
         if "hex" in case:
             return unhx(case["hex"])
-        return b"".join(bytes(build_rtcp(s)) for s in case["packets"])
+        return b"".join(bytes(p) for p in self._objs(case))
 
     def model_line(self, case):
         try:
@@ -657,24 +672,56 @@ class Rtcp(Component):
         except Exception:
             return None
 
-    def impl(self, case):
-        rtp = R()
-        try:
-            data = self._data(case)
-        except Exception as e:  # noqa
-            return "build " + tag_exc(e)
-        try:
-            ps = rtp.RtcpPacket.parse(data)
-        except Exception as e:  # noqa
-            return tag_exc(e)
+    @staticmethod
+    def _observe(ps):
         try:
             re = hx(b"".join(bytes(p) for p in ps))
         except AssertionError:
             re = "not-wf"
         return "ok " + show_rtcps(ps) + " => " + re
 
+    def impl(self, case):
+        rtp = R()
+        ser2 = None
+        try:
+            if "hex" in case:
+                data = unhx(case["hex"])
+            else:
+                objs = self._objs(case)
+                data = b"".join(bytes(p) for p in objs)
+                again = b"".join(bytes(p) for p in objs)      # serialising twice in a row
+                if again != data:
+                    ser2 = hx(again)
+        except Exception as e:  # noqa
+            return "build " + tag_exc(e)
+        try:
+            ps = rtp.RtcpPacket.parse(data)
+        except Exception as e:  # noqa
+            return tag_exc(e)
+        out = self._observe(ps)
+        # a hostile owner modifies everything the parser returned, then the same bytes arrive again
+        try:
+            st.hostile_compound(ps, len(data) % 11 + 1)
+        except Exception:  # noqa  (immutable results cannot be modified)
+            pass
+        try:
+            out2 = self._observe(rtp.RtcpPacket.parse(data))
+        except Exception as e:  # noqa
+            out2 = tag_exc(e)
+        if out2 != out:
+            out += " => REPARSE " + out2
+        if ser2 is not None:
+            out += " => SER2 " + ser2
+        return out
+
     def oracle(self, case, impl_out):
         rtp = R()
+        if " => REPARSE " in impl_out:
+            a, b = impl_out.split(" => REPARSE ", 1)
+            return (f"RtcpPacket.parse of the same bytes, after the owner of the first result modified it, gives "
+                    f"[{b[:300]}] instead of [{a[:300]}]")
+        if " => SER2 " in impl_out:
+            return "serialising the same RTCP objects twice in a row gives different bytes: second " + impl_out.split(" => SER2 ", 1)[1][:200]
         if impl_out.startswith("crash") or impl_out.startswith("build"):
             return f"RtcpPacket.parse / bytes() raises {impl_out}"
         if impl_out == "ValueError":
@@ -693,9 +740,9 @@ class Rtcp(Component):
             for a, b in zip(orig, ps):
                 if isinstance(a, rtp.RtcpRtpfbPacket) and isinstance(b, rtp.RtcpRtpfbPacket):
                     if (a.fmt, a.ssrc, a.media_ssrc) != (b.fmt, b.ssrc, b.media_ssrc) or not nack_ok(a.lost, b.lost):
-                        return f"RTPFB {show_rtcp(a)} parses back as {show_rtcp(b)}"
+                        return f"RTPFB {show_rtcp(a)} parses back as {show_rtcp(b)}" + self._reuse_note(case)
                 elif a != b:
-                    return f"{show_rtcp(a)} parses back as {show_rtcp(b)}"
+                    return f"{show_rtcp(a)} parses back as {show_rtcp(b)}" + self._reuse_note(case)
             if len(data) % 4:
                 return "compound packet length not a multiple of 4"
         else:
@@ -712,8 +759,15 @@ class Rtcp(Component):
                     return f"accepted {show_rtcp(a)} re-serialises to {show_rtcp(b)}"
         return None
 
+    @staticmethod
+    def _reuse_note(case):
+        if "prev" not in case:
+            return ""
+        return (" (the objects were serialised with other field values before: "
+                + show_rtcps([build_rtcp(s) for s in case["prev"]])[:200] + ")")
+
     def label(self, case, impl_out):
-        mode = "built" if "packets" in case else "bytes"
+        mode = ("reused" if "prev" in case else "built") if "packets" in case else "bytes"
         if not impl_out.startswith("ok"):
             return f"{mode}:{impl_out[:24]}"
         body = impl_out[3:].split(" => ")[0]
@@ -727,15 +781,25 @@ class Rtcp(Component):
     def shrink(self, case):
         if "packets" in case:
             ps = case["packets"]
+            extra = {k: case[k] for k in ("ip",) if k in case}
+            prev = case.get("prev")
+
+            def mk(new_ps, new_prev=None):
+                c = dict(extra, packets=new_ps)
+                if prev is not None:
+                    c["prev"] = prev if new_prev is None else new_prev
+                return c
+            if prev is not None:
+                yield {"packets": ps}
             for i in range(len(ps)):
-                yield {"packets": ps[:i] + ps[i + 1:]}
+                yield mk(ps[:i] + ps[i + 1:], None if prev is None else prev[:i] + prev[i + 1:])
             for i, s in enumerate(ps):
                 for key in ("sources", "reports", "chunks", "lost"):
                     if key in s and s[key]:
                         for j in range(len(s[key])):
-                            yield {"packets": ps[:i] + [dict(s, **{key: s[key][:j] + s[key][j + 1:]})] + ps[i + 1:]}
+                            yield mk(ps[:i] + [dict(s, **{key: s[key][:j] + s[key][j + 1:]})] + ps[i + 1:])
                 if s.get("fci", "-") != "-":
-                    yield {"packets": ps[:i] + [dict(s, fci="-")] + ps[i + 1:]}
+                    yield mk(ps[:i] + [dict(s, fci="-")] + ps[i + 1:])
         else:
             d = unhx(case["hex"])
             for i in range(0, len(d), 4):
@@ -895,7 +959,11 @@ class Rtp(Component):
         for _ in range(n):
             ids = gen_ids(rng)
             spec = gen_rtp(rng, ids)
-            out.append({"ids": ids, "packet": spec})
+            if rng.random() < 0.5:
+                # a RE-USED packet object (built with other values, serialised with the same live map, every field overwritten)
+                out.append({"ids": ids, "packet": spec, "prev": gen_rtp(rng, ids), "ip": rng.random() < 0.5})
+            else:
+                out.append({"ids": ids, "packet": spec})
             r = rng.random()
             if r < 0.35:
                 try:
@@ -924,10 +992,27 @@ class Rtp(Component):
                 out.append({"ids": ids2, "hex": hx(raw_ext_packet(rng, ids2))})
         return out
 
+    def _ser(self, case, m):
+        """Serialise the packet of a built case with the live map `m`, twice in a row. With `prev` the object is
+        RE-USED: built with other values, serialised with `m`, then every field overwritten."""
+        spec = case["packet"]
+        if "prev" in case:
+            p = build_rtp(case["prev"])
+            try:
+                with urandom(unhx(case["prev"].get("padbytes", "-"))):
+                    p.serialize(m)
+            except Exception:  # noqa
+                pass
+            st.assign_rtp(p, spec, bool(case.get("ip")))
+        else:
+            p = build_rtp(spec)
+        with urandom(unhx(spec.get("padbytes", "-"))):
+            return p.serialize(m), p.serialize(m)
+
     def _data(self, case):
         if "hex" in case:
             return unhx(case["hex"])
-        return ser_rtp(case["packet"], case["ids"])
+        return self._ser(case, make_map(case["ids"]))[0]
 
     def model_line(self, case):
         try:
@@ -935,27 +1020,58 @@ class Rtp(Component):
         except Exception:
             return None
 
-    def impl(self, case):
-        rtp = R()
-        m = make_map(case["ids"])
-        try:
-            data = self._data(case)
-        except Exception as e:  # noqa
-            return "build " + tag_exc(e)
-        try:
-            p = rtp.RtpPacket.parse(data, m)
-        except Exception as e:  # noqa
-            return tag_exc(e)
+    @staticmethod
+    def _observe(data, m):
+        """parse with the live map, re-serialise what was parsed with the same map"""
+        p = R().RtpPacket.parse(data, m)
+        shown = show_rtp(p)
         padbytes = data[len(data) - p.padding_size:len(data) - 1] if p.padding_size else b""
         try:
             with urandom(padbytes):
                 re = "ok " + hx(p.serialize(m))
         except Exception as e:  # noqa
             re = tag_exc(e)
-        return "ok " + show_rtp(p) + " => " + re
+        return p, "ok " + shown + " => " + re
+
+    def impl(self, case):
+        m = make_map(case["ids"])          # ONE live map for everything that follows
+        ser2 = None
+        try:
+            if "hex" in case:
+                data = unhx(case["hex"])
+            else:
+                data, again = self._ser(case, m)
+                if again != data:
+                    ser2 = hx(again)
+        except Exception as e:  # noqa
+            return "build " + tag_exc(e)
+        try:
+            p, out = self._observe(data, m)
+        except Exception as e:  # noqa
+            return tag_exc(e)
+        # a hostile owner modifies everything the parser returned, then the same bytes arrive again
+        try:
+            st.hostile_rtp(p, len(data) % 11 + 1)
+        except Exception:  # noqa  (immutable results cannot be modified)
+            pass
+        try:
+            out2 = self._observe(data, m)[1]
+        except Exception as e:  # noqa
+            out2 = tag_exc(e)
+        if out2 != out:
+            out += " => REPARSE " + out2
+        if ser2 is not None:
+            out += " => SER2 " + ser2
+        return out
 
     def oracle(self, case, impl_out):
         rtp = R()
+        if " => REPARSE " in impl_out:
+            a, b = impl_out.split(" => REPARSE ", 1)
+            return (f"RtpPacket.parse of the same bytes with the same map, after the owner of the first result modified it, "
+                    f"gives [{b[:300]}] instead of [{a[:300]}]")
+        if " => SER2 " in impl_out:
+            return "serialising the same RtpPacket twice in a row gives different bytes: second " + impl_out.split(" => SER2 ", 1)[1][:200]
         if impl_out.startswith("crash") or impl_out.startswith("build"):
             return f"RtpPacket.parse/serialize raises {impl_out}"
         if impl_out == "ValueError":
@@ -972,7 +1088,10 @@ class Rtp(Component):
                 if not i:
                     setattr(want.extensions, f, None)
             if show_rtp(want) != body:
-                return f"packet [{show_rtp(want)}] parses back as [{body}]"
+                note = ""
+                if "prev" in case:
+                    note = f" (the object was serialised with other field values before: [{show_rtp(build_rtp(case['prev']))[:200]}])"
+                return f"packet [{show_rtp(want)}] parses back as [{body}]" + note
             data = self._data(case)
             if re != "ok " + hx(data):
                 return "parse followed by serialize does not reproduce the bytes"
@@ -993,7 +1112,7 @@ class Rtp(Component):
         return None
 
     def label(self, case, impl_out):
-        mode = "built" if "packet" in case else "bytes"
+        mode = ("reused" if "prev" in case else "built") if "packet" in case else "bytes"
         if not impl_out.startswith("ok"):
             return f"{mode}:{impl_out[:24]}"
         try:
@@ -1010,6 +1129,8 @@ class Rtp(Component):
     def shrink(self, case):
         if "packet" in case:
             s = case["packet"]
+            if "prev" in case:
+                yield {k: v for k, v in case.items() if k not in ("prev", "ip")}
             if s["csrc"]:
                 yield dict(case, packet=dict(s, csrc=s["csrc"][1:]))
             if s["payload"] != "-":
@@ -1126,7 +1247,8 @@ class Rtx(Component):
 
 
 def components(tier):
-    return [Fields(), Rtcp(), Rtp(), Rtx()]
+    from harness.c07ops import Ops
+    return [Fields(), Rtcp(), Rtp(), Rtx(), Ops()]
 
 
 def classify_finding(finding, comp_name, case, what):
